@@ -16,6 +16,7 @@ from .ldm_classes import (
     SubscriptionInfo,
 )
 from .ldm_constants import (
+    DATA_OBJECT_FIELD_NAME,
     DATA_OBJECT_TYPE_ID,
 )
 from .ldm_maintenance import (
@@ -247,16 +248,22 @@ class LDMService:
             tuple of ordered tuples of data objects.
         """
 
-        def build_key(item):
-            return tuple(
-                Utils.get_nested(item, Utils.find_attribute(order.attribute, item))
-                for order in orders
-            )
+        def build_key(item, order):
+            attribute = str(order.attribute)
+            if "." in attribute:
+                # Dotted attribute paths are resolved inside the message, as filter attributes are.
+                return Utils.get_nested(item.get(DATA_OBJECT_FIELD_NAME), attribute.split("."))
+            return Utils.get_nested(item, Utils.find_attribute(attribute, item))
 
-        reverse = any(
-            order.ordering_direction == OrderingDirection.DESCENDING for order in orders
-        )
-        return (tuple(sorted(search_results, key=build_key, reverse=reverse)),)
+        # One stable sort per attribute, least significant first, each with its own direction.
+        ordered_results = list(search_results)
+        for order in reversed(orders):
+            ordered_results = sorted(
+                ordered_results,
+                key=lambda item, order=order: build_key(item, order),
+                reverse=order.ordering_direction == OrderingDirection.DESCENDING,
+            )
+        return (tuple(ordered_results),)
 
     def add_provider_data(self, data: AddDataProviderReq) -> int | None:
         """
